@@ -290,6 +290,14 @@ func TestC10(t *testing.T) {
 	st := vstat.New("C10")
 	defer finish(t, st)
 	rapidProp(t, st, "foreign", perShard(pick(2400, 80000)), 1, c10Gen, func(p c10Plan) *viol { return c10Run(t, st, p) })
+	// the sender binding must also hold on a node that processed a re-initialisation and kept running (the switch that
+	// turns verification off for the replay of the old log lives in the node's memory)
+	rapidProp(t, st, "live-after-reinit", perShard(pick(3, 40)), 2,
+		func(rt *rapid.T) c09Live {
+			nt := rapid.SampledFrom([][2]int{{2, 2}, {3, 2}}).Draw(rt, "nt")
+			return c09Live{N: nt[0], T: nt[1], RawLog: rapid.Bool().Draw(rt, "raw"), Foreign: true}
+		},
+		func(p c09Live) *viol { return c09RunLive(t, st, p) })
 }
 
 // events a participant may legitimately send in each state
